@@ -165,3 +165,16 @@ def run(repo: Repo, rep: Report, tier: str) -> None:
                     rep.check(w in WRITERS_ALLOWED, "writers", w, enclosing(n, (ast.stmt,)) or n, "cancel_req is written by a function outside the frozen set: read it and decide whether it can report a cancel to the wrong operation or drop one", mod=m, node=n)
     rep.floor("cancel_req writers", len(seen), 4)
     rep.extra["writers"] = sorted(seen)
+
+    # ---- one dictionary per association --------------------------------------------------------
+    rep.rule("per-association", "cancel_req is created per DIMSEServiceProvider instance (a fresh dict in __init__), never shared through a class attribute")
+    dci = repo.cls("dimse", "DIMSEServiceProvider")
+    init = dci.methods.get("__init__")
+    inst = [s for s in (walk_no_nested(init) if init is not None else []) if isinstance(s, (ast.Assign, ast.AnnAssign)) and norm(s.targets[0] if isinstance(s, ast.Assign) else s.target) == "self.cancel_req"]
+    ok = len(inst) == 1 and inst[0].value is not None and norm(inst[0].value) in ("{}", "dict()")
+    rep.check(ok, "per-association", "dimse.DIMSEServiceProvider.__init__", inst[0] if inst else "self.cancel_req = {}", "every association needs its own cancel dictionary, created when its DIMSE provider is created", mod=dm, node=init or dci.node)
+    for s in dci.node.body:
+        if isinstance(s, (ast.Assign, ast.AnnAssign)):
+            t = s.targets[0] if isinstance(s, ast.Assign) else s.target
+            if norm(t) == "cancel_req" and getattr(s, "value", None) is not None:
+                rep.fail("per-association", "dimse.DIMSEServiceProvider", s, "cancel_req is a class attribute with a mutable value: every association in the process shares one dictionary, so a C-CANCEL received on one association is reported to (and consumed by) an operation with the same message id on another", mod=dm, node=s)
